@@ -176,6 +176,7 @@ package hash
 //@ schema N=2..21
 //@ lemma tuple{N}Hash[<<i=1..N|, |A$i>> any](<<i=1..N|, |h$i fp.Hashable[A$i]>>, x fp.Tuple{N}[<<i=1..N|, |A$i>>], y fp.Tuple{N}[<<i=1..N|, |A$i>>], z fp.Tuple{N}[<<i=1..N|, |A$i>>])
 //@   prop C09 C14
+//@   option timeout=20
 //@   requires <<i=1..N| && |veriflaws.HashLaws(h$i)>>
 //@   ensures Tuple{N}(<<i=1..N|, |h$i>>).Eqv(x, y) == (<<i=1..N| && |h$i.Eqv(x.I$i, y.I$i)>>)
 //@   tag def
